@@ -971,11 +971,15 @@ func sameRec(a, b Rec) bool {
 }
 
 func TestBoundedC01(t *testing.T) {
-	for round := 0; round < 36; round++ {
+	for round := 0; round < 39; round++ {
 		n := []int{0, 1, 2, 5, 9, 33, 120}[round%7]
-		rs := randomRecs(n, int64(100+round))
 		cname := []string{"uncompressed", "snappy", "gzip"}[round%3]
 		ps := []int{1, 2, 3, 7, 1000}[round%5]
+		if round >= 36 {
+			// pages of more than 504 levels (long bit-packed runs in the level streams)
+			n, ps = 1300, []int{1000, 2000, 600}[round-36]
+		}
+		rs := randomRecs(n, int64(100+round))
 		var batches []int
 		switch round % 4 {
 		case 0:
